@@ -62,9 +62,11 @@ class Builder:
         self.scalars[name] = v
         return v
 
-    def int(self, name):
+    def int(self, name, size_like=False):
         v = SymNum(z3.Int(name), "int")
         self.scalars[name] = v
+        if size_like:
+            ctx().small_hints.append(v)
         return v
 
     def bool(self, name):
@@ -76,6 +78,7 @@ class Builder:
         v = SymNum(z3.Int(name), "int")
         self.dims[name] = v
         ctx().assume(v >= minimum)
+        ctx().small_hints.append(v)
         return v
 
     def array(self, name, shape, kind="f", nan=False):
